@@ -79,7 +79,7 @@ Inductive stmt :=
 | UDeleteRel (keys : list rkey)                                 (* DELETE r *)
 | UMergeNode (rows : list (list N * list (N * oval) * list (N * oval) * list (N * oval)))
 | USetRelProp (rows : list (rkey * N * oval))                   (* MATCH (a)-[r]->(b) SET r.k = v, one row per parallel relationship *)
-| UMergeRel (rows : list (rkey * list (N * oval) * list (N * oval) * list (N * oval)))
+| UMergeRel (rows : list (rkey * N * list (N * oval) * list (N * oval) * list (N * oval)))
 | USetRelMap (rows : list (rkey * bool * list (N * oval)))      (* SET r = map (false) / r += map (true) *)
 | URemoveRelProp (rows : list (rkey * N))                       (* REMOVE r.k *)
 | UChain (clauses : list stmt).                                 (* several SET / REMOVE clauses in ONE statement (execute_mixed):
@@ -225,15 +225,28 @@ Fixpoint rel_merge_create (k : rkey) (ps oc : list (N * oval)) (l : list (rkey *
    items write to the key's single property map. *)
 Definition ps_match (have : props) (ps : list (N * oval)) : bool :=
   forallb (fun kv => match pget (fst kv) have with Some w => pv_eq w (snd kv) | None => false end) ps.
+(* a row carries the pattern as written: (left node, type, right node) and the direction
+   0: (left)-[..]->(right)   1: (left)<-[..]-(right)   2: (left)-[..]-(right) (undirected).
+   merge_collect_edges_between looks for left->right, right->left, or both; the create side lays an
+   undirected pattern out left->right. *)
+Definition flip (k : rkey) : rkey := let '(a, t, b) := k in (b, t, a).
+Definition merge_lookup_keys (k : rkey) (dir : N) : list rkey :=
+  if dir =? 0 then [k] else if dir =? 1 then [flip k] else [k; flip k].
+Definition merge_create_key (k : rkey) (dir : N) : rkey := if dir =? 1 then flip k else k.
 Definition merge_rel_row (pre : graph) (acc : graph * N * list (rkey * props))
-           (r : rkey * list (N * oval) * list (N * oval) * list (N * oval)) : graph * N * list (rkey * props) :=
-  let '(g, c, ov) := acc in let '(key, ps, oc, om) := r in
-  let snap_match :=
-    match rfind_pre key (gr pre) with Some (_, p) => ps_match p ps | None => false end in
-  let ov_match := existsb (fun e => rkey_eqb (fst e) key && ps_match (snd e) ps) ov in
-  if snap_match || ov_match
-  then (mkGraph (gn g) (rmap key (fun p => set_all p om) (gr g)) (gnext g) (gcat g), c, ov)
-  else (mkGraph (gn g) (rel_merge_create key ps oc (gr g)) (gnext g) (gcat g), c + 1, ov ++ [(key, raw_set [] ps)]).
+           (r : rkey * N * list (N * oval) * list (N * oval) * list (N * oval)) : graph * N * list (rkey * props) :=
+  let '(g, c, ov) := acc in let '(wkey, dir, ps, oc, om) := r in
+  let key_matches (key : rkey) :=
+    match rfind_pre key (gr pre) with Some (_, p) => ps_match p ps | None => false end ||
+    existsb (fun e => rkey_eqb (fst e) key && ps_match (snd e) ps) ov in
+  match filter key_matches (merge_lookup_keys wkey dir) with
+  | [] =>
+      let key := merge_create_key wkey dir in
+      (mkGraph (gn g) (rel_merge_create key ps oc (gr g)) (gnext g) (gcat g), c + 1, ov ++ [(key, raw_set [] ps)])
+  | matched =>
+      (mkGraph (gn g) (fold_left (fun rels key => rmap key (fun p => set_all p om) rels) matched (gr g))
+               (gnext g) (gcat g), c, ov)
+  end.
 
 Definition remove_rel_prop_row (pre : graph) (acc : graph * N) (r : rkey * N) : graph * N :=
   let '(g, c) := acc in let '(key, k) := r in
